@@ -726,6 +726,12 @@ pub fn do_replay(cfg: &Cfg, path: &str, replay: &ReplayFn) -> i32 {
     let case = if v.get("case").is_some() { v["case"].clone() } else { v.clone() };
     let mut st = Stats::new();
     replay(&case, &mut st);
+    if st.failures.is_empty() && !st.oracle_errors.is_empty() {
+        for e in &st.oracle_errors {
+            println!("ORACLE-ERROR (inconclusive, not a violation): {e}");
+        }
+        return 2;
+    }
     if st.failures.is_empty() {
         println!("[{}] replay {}: property holds on this case", cfg.prop, path);
         0
